@@ -24,9 +24,9 @@ def _extra(lines, verdicts):
             "impl_rejected": rejected, "impl_round_trips_completed": rt}
 
 STRUCT_IDS = sorted(['V01', 'V02', 'V03', 'V04', 'V05', 'V06', 'V07', 'V08', 'V09', 'V10', 'V11', 'V12', 'V13', 'V14', 'V15', 'V16', 'V17', 'V18', 'V19', 'V20', 'V21', 'V22', 'V23', 'V24', 'V25', 'V26', 'V27', 'V28', 'V29', 'V30', 'V31', 'V32', 'V33', 'R01', 'R02', 'R03', 'R04', 'R05', 'R06', 'R07', 'R08', 'R09', 'R10', 'R11', 'R12', 'R13', 'R14', 'R15', 'F01', 'F02', 'F03', 'F04', 'F05', 'F06', 'F07', 'F08', 'F09', 'F10', 'F11', 'F12', 'F13', 'F14', 'F15', 'F16', 'F17', 'G01', 'L01', 'GR1', 'LR1', 'K01', 'KR1'])
-NESTED_IDS = sorted(['N01', 'N02', 'N03', 'N04', 'NR1'])
+NESTED_IDS = sorted(['N01', 'N02', 'N03', 'N04', 'N05', 'N06', 'N07', 'NR1'])
 N_STRUCTS = len(STRUCT_IDS)   # 71 registered structs (descriptor self-check, kind XD)
-N_NESTED = 5            # structs with derived-struct field types (kind NV)
+N_NESTED = len(NESTED_IDS)  # 8 structs with derived-struct field types (kind NV)
 
 # census: the #[scylla(..)] attribute names and flavors the four derive macros understand, read from
 # the macro sources of the tree under test.  A new attribute / flavor leaves the family incomplete.
@@ -105,7 +105,7 @@ def _post(lines, verdicts):
         problems.append(("diff", "coverage: structs", f"diff coverage-floor struct ids differ from the pinned list: {sorted(set(per_struct) ^ set(STRUCT_IDS + NESTED_IDS))}"))
     if pt_accepted < 200:
         problems.append(("diff", "coverage: PT", f"diff coverage-floor only {pt_accepted} accepted PT cases (per-column table specs)"))
-    for k, floor in (("PR", 1500), ("PT", 600), ("NV", 2500)):
+    for k, floor in (("PR", 1500), ("PT", 600), ("NV", 4000)):
         if kinds.get(k, 0) < floor:
             problems.append(("diff", f"coverage: kind {k}", f"diff coverage-floor kind {k}: {kinds.get(k, 0)} cases, floor {floor}"))
     if len(per_struct) != N_STRUCTS + N_NESTED or min(per_struct.values()) < 200:
@@ -127,9 +127,9 @@ SPEC = {
              "SerializeRow(+DeserializeRow), 17 SerializeRow structs with #[scylla(flatten)]; among them structs with lifetime / type parameters and #[scylla(crate = ..)]), each registered with its descriptor text (re-derived from the attribute text of the runner's own source as a self-check, kind XD); "
              "per struct: every permutation of its <= 6 bound fields, every subset of fields missing in 4 orders, one extra field at "
              "every position (quick: only for <= 1 missing field), two extras at every pair of positions, every field duplicated at every position, every field with "
-             "every other DB type, Rust identifiers of renamed fields as DB names, a non-UDT type; per DB list one serialize case "
+             "every other DB type (int, text, ascii, bigint; a String field is bound to an ascii column in 1 of 4 valid random lists), Rust identifiers of renamed fields as DB names, a non-UDT type; per DB list one serialize case "
              "(with round trip through the derived deserializer on the implementation's own bytes) and deserialize cases with "
-             "random cells / every null pattern (all orders for <= 3 fields, declared and reversed order up to 4 fields quick / 6 thorough) / truncated value lists; then --n seeded random cases (extra names randomised: random identifiers, case variants of the struct's names, Rust identifiers of renamed / skipped fields). Kind PR / PT: row cases re-run on ColumnSpecs decoded by the driver itself from a PREPARED response encoded by mocknode (PT: last column in a second table, per-column table specs). Kind NV: 5 structs whose field types are derived structs (UDT in UDT, Option<Struct>, Vec<Struct>, UDT as a row column, ordered parent): every outer x inner field order x extras / absent allow_missing, judged by the round-trip law only (no model). "
+             "random cells / every null pattern (all orders for <= 3 fields, declared and reversed order up to 4 fields quick / 6 thorough) / truncated value lists; then --n seeded random cases (extra names randomised: random identifiers, case variants of the struct's names, Rust identifiers of renamed / skipped fields). Kind PR / PT: row cases re-run on ColumnSpecs decoded by the driver itself from a PREPARED response encoded by mocknode (PT: last column in a second table, per-column table specs). Kind NV: 8 structs whose field types are derived structs (UDT in UDT, Option<Struct>, Vec<Struct> as list and as set, BTreeMap<i32, Struct>, (i32, Struct) tuple, UDT as a row column, ordered parent): every outer x inner field order x extras / absent allow_missing, judged by the round-trip law only (no model). "
              "non-trivial = DB list non-empty and a UDT / column list; distinct = distinct case lines"),
     "nontrivial": _nontrivial,
     "extra_coverage": _extra,
@@ -138,13 +138,13 @@ SPEC = {
     "trusted_base": [
         "doc_* functions of coq/Model/Derive.v are the attribute documentation of scylla-macros/src/lib.rs transcribed by hand",
         "the descriptor text registered next to each struct of harness/src/bin/c16.rs (re-derived from the struct's attribute text on every run, kind XD; a struct whose two texts differ gets no cases)",
-        "the 5 structs with nested derived-struct fields (kind NV) have no model: round-trip law only, bytes and rejections unchecked",
-        "field value codec abstracted to cells: i32 / String / Option<i32> / Option<String> against int / text / bigint only",
+        "the 8 structs with nested derived-struct fields (kind NV) have no model: round-trip law only, bytes and rejections unchecked",
+        "field value codec abstracted to cells: i32 / String / Option<i32> / Option<String> against int / text / ascii / bigint only",
     ],
     "assumptions": [
         "descriptors satisfy the macros' own compile-time validate (no duplicate field names among non-skipped fields)",
         "serialized values handed to the deserializers are well-framed ([bytes] cells); malformed framing is C08's subject",
-        "text payloads are ASCII or contain byte 0xff (the model's UTF-8 validity test is exact only on those)",
+        "text payloads are ASCII or contain byte 0xff (neither ASCII nor valid UTF-8: the model's validity test is exact only on those, for text and for ascii columns alike)",
         "open finding F24 (class ordered-allow-missing-present-but-dropped): enforce_order + allow_missing accepts a UDT listing the field at another place and drops its value; such inputs are judged by the documented (strict) table and reported as KNOWN-FINDING",
         "census: the attribute names / flavors of scylla-macros (read from the tree under test) equal the pinned list",
     ],
